@@ -479,14 +479,11 @@ func main() {
 	r := ev.Start("C05", "exploration")
 	b := base3()
 	all := append([]named{}, b...)
-	maxLen := 2
-	if r.Thorough() {
-		maxLen = 3
-	}
+	maxLen := 3
 	for i, x := range b {
 		for j, y := range b {
 			all = append(all, named{"Joined(" + x.name + "," + y.name + ")", model3d.JoinedTransform{x.t, y.t}, math.Max(x.tol, y.tol) * 10})
-			if maxLen >= 3 && (i+j)%2 == 0 {
+			if maxLen >= 3 && ((i+j)%2 == 0 || r.Thorough()) {
 				for _, z := range b {
 					all = append(all, named{"Joined(" + x.name + "," + y.name + "," + z.name + ")", model3d.JoinedTransform{x.t, y.t, z.t}, math.Max(z.tol, math.Max(x.tol, y.tol)) * 100})
 				}
@@ -516,7 +513,7 @@ func main() {
 		r.Sample(c)
 		r.Finish()
 	}
-	r.Rule(fmt.Sprintf("%d base transforms (translations, uniform/per-axis/negative scales, shear and general matrices, rotations, axis squeeze/pinch, SmartSqueeze) and every composition of length <= %d (%d transforms) on a 7^3 point lattice: T^-1 T = T T^-1 = id, ApplyBounds encloses the image of a 7^3 grid of box points, ApplyDistance equals the actual distance change; "+
+	r.Rule(fmt.Sprintf("%d base transforms (translations, uniform/per-axis/negative scales, shear and general matrices, rotations, axis squeeze/pinch, SmartSqueeze) and every composition of length <= %d (all pairs; half of the triples in the quick tier, all in the thorough tier: %d transforms) on a 7^3 point lattice: T^-1 T = T T^-1 = id, ApplyBounds encloses the image of a 7^3 grid of box points, ApplyDistance equals the actual distance change; "+
 		"TransformSolid / TransformSDF / TransformCollider / TransformMetaball of %d primitives compared with the original at the pulled-back point (membership, scaled distance, ray hits with the same parameter and unit linear-image normals, first hit, ball test, nil-callback count); 2D: 8 transforms and all 64 pairs. non-trivial = contained points whose image must be contained (box must not cut the shape) and ray hits whose parameter and normal were compared", len(b), maxLen, len(all), len(shapes)))
 	r.Assume("Scale only with positive factors; rays with hits closer than 1e-4 to the origin or to each other are skipped")
 	r.Isolate("transforms", func() {
